@@ -45,6 +45,7 @@ def make_profile(prop, rng, tier):
     p['cap_w'] = [3, 6, 1, 0.5, 0.1, 0.02]
     p['stale_p'] = 0.0
     p['list_w'] = rng.choice([1, 1, 3, 6])       # some programs address wells mostly by lists
+    p['shadow'] = rng.random() < 0.12            # a second Recipe object receives the same calls, interleaved
     p['same_plate_p'] = 0.35
     lo, hi = p['steps']
     if tier == 'thorough':
@@ -162,7 +163,7 @@ def run_generated(prop, seed, run_idx, tier, known=None):
                 continue        # bake after a failed bake is a known finding; only its witness does that
             emit(c)
     record = {'engine': 'B', 'property': prop, 'seed': seed, 'run': run_idx, 'tier': tier,
-              'profile': {k: profile[k] for k in ('magnitude', 'round_numbers', 'plate_size', 'cache_policy', 'n_steps')},
+              'profile': {k: profile[k] for k in ('magnitude', 'round_numbers', 'plate_size', 'cache_policy', 'n_steps', 'shadow')},
               'subs': subs, 'prelude': prelude, 'events': calls}
     if run.baked is not None and run.eager_ok and rng.random() < profile.get('p_chain', 0.15):
         record['chain'] = second_recipe(rng, run, g, profile, known)
